@@ -107,3 +107,46 @@ theorem follow_no_fake_final (fetch : Url → Option Resp) (max fuel : Nat) (url
               simpa using hg
             · exact ih _ _ h
 end Cl
+
+namespace Cl
+/-- a straight chain `u₀ → u₁ → … → uₙ` of gemini redirects ending in a final response -/
+inductive Chain (fetch : Url → Option Resp) : Url → List Url → Nat → Prop
+  | final (u : Url) (s : Nat) : fetch u = some (.final s) → Chain fetch u [] s
+  | hop (u v : Url) (st : Nat) (rest : List Url) (s : Nat) :
+      fetch u = some (.redirect st v) → v ≠ [] → gem.isPrefixOf v = true →
+      Chain fetch v rest s → Chain fetch u (v :: rest) s
+
+/-- C16: a loop-free chain of at most `max` gemini redirects is followed to its final response, with
+    one connection per hop -/
+theorem follow_chain (fetch : Url → Option Resp) (max : Nat) (u : Url) (hops : List Url) (s : Nat)
+    (hc : Chain fetch u hops s) (visited : List Url) (fuel : Nat)
+    (hfuel : hops.length < fuel)
+    (hbudget : visited.length + hops.length ≤ max)
+    (hfresh : ∀ x ∈ u :: hops, x ∉ visited) (hnodup : (u :: hops).Nodup) :
+    follow fetch max fuel u visited = (.ok (.final s), u :: hops) := by
+  induction hc generalizing visited fuel with
+  | final u s hf =>
+    cases fuel with
+    | zero => simp at hfuel
+    | succ n =>
+      have h1 : u ∉ visited := hfresh u (by simp)
+      have h2 : ¬ visited.length > max := by simp at hbudget; omega
+      simp [follow, h1, h2, hf]
+  | hop u v st rest s hf hne hg _ ih =>
+    cases fuel with
+    | zero => simp at hfuel
+    | succ n =>
+      have h1 : u ∉ visited := hfresh u (by simp)
+      have h2 : ¬ visited.length > max := by simp at hbudget; omega
+      have hve : v.isEmpty = false := by cases v with | nil => exact absurd rfl hne | cons _ _ => rfl
+      have hrec := ih (visited ++ [u]) n (by simp at hfuel ⊢; omega) (by simp at hbudget ⊢; omega)
+        (by
+          intro x hx hm
+          simp only [List.mem_append, List.mem_singleton] at hm
+          rcases hm with hm | rfl
+          · exact hfresh x (by simp at hx ⊢; right; exact hx) hm
+          · simp only [List.nodup_cons] at hnodup
+            exact hnodup.1 (by simpa using hx))
+        (by simp only [List.nodup_cons] at hnodup ⊢; exact hnodup.2)
+      simp [follow, h1, h2, hf, hve, hg, hrec]
+end Cl
